@@ -25,6 +25,7 @@ CONSTANTS Uris, Texts,
           MaxDisk,          \* environment disk writes/deletes per behaviour
           OnDisk,           \* uris that exist on disk initially (content Disk0)
           InlineOpen, InlineChange, InlineClose,  \* mined: handled inline on the main loop?
+          InitOpen,         \* uris already open (text InitText, analysed, diagnostics published) when the behaviour starts
           EnableReindex     \* emmyrc workspace.enableReindex (didSave schedules a debounced full reindex)
 
 None == "none"        \* not open
@@ -32,6 +33,7 @@ Absent == "absent"    \* not in the vfs / not on disk
 Never == "never"      \* nothing published yet
 Empty == "empty"      \* an empty diagnostic set was published
 Disk0 == "d0"         \* initial on-disk content
+InitText == "t1"      \* text of the documents in InitOpen
 Done == 99
 
 MaxInc == MaxMsgs + 2   \* a uri cannot be removed more often than that in a bounded behaviour
@@ -84,11 +86,17 @@ Inline(k) == CASE k = "open" -> InlineOpen [] k = "change" -> InlineChange [] k 
                [] OTHER -> FALSE
 FirstPc(k) == 1
 
-Init == /\ script = <<>> /\ mainBusy = 0 /\ tasks = <<>>
-        /\ wmOpen = [u \in Uris |-> None] /\ wmVer = 0
+\* the pre-opened documents count as the first messages of the script (so "last message" is defined)
+RECURSIVE InitScript(_)
+InitScript(us) == IF us = {} THEN <<>>
+                  ELSE LET u == CHOOSE x \in us : TRUE IN
+                       <<[kind |-> "open", uri |-> u, text |-> InitText]>> \o InitScript(us \ {u})
+Init == /\ script = InitScript(InitOpen) /\ mainBusy = 0 /\ tasks = <<>>
+        /\ wmOpen = [u \in Uris |-> IF u \in InitOpen THEN InitText ELSE None]
+        /\ wmVer = Cardinality(InitOpen)
         /\ disk = [u \in Uris |-> IF u \in OnDisk THEN Disk0 ELSE Absent]
-        /\ vfs = [u \in Uris |-> IF u \in OnDisk THEN Disk0 ELSE Absent]
-        /\ published = [u \in Uris |-> Never]
+        /\ vfs = [u \in Uris |-> IF u \in InitOpen THEN InitText ELSE IF u \in OnDisk THEN Disk0 ELSE Absent]
+        /\ published = [u \in Uris |-> IF u \in InitOpen THEN InitText ELSE Never]
         /\ diagTok = [u \in Uris |-> [g \in 0..MaxInc |-> 0]] /\ wsTok = 0 /\ cfgTok = 0 /\ rxTok = 0
         /\ reloadGen = 0 /\ reloadLock = 0
         /\ anR = {} /\ anW = 0 /\ wmR = {} /\ nDisk = 0 /\ late = {} /\ inc = [u \in Uris |-> 0]
@@ -101,7 +109,7 @@ ClientOpen(u) == LastDocMsg(u) # 0 /\ script[LastDocMsg(u)].kind # "close"
 NCfg == Cardinality({i \in 1..Len(script) : script[i].kind = "cfg"})
 
 Deliver(m) ==
-  /\ mainBusy = 0 /\ Len(script) < MaxMsgs
+  /\ mainBusy = 0 /\ Len(script) < MaxMsgs + Cardinality(InitOpen)
   /\ m.kind = "open" => ~ClientOpen(m.uri)
   /\ m.kind \in {"change", "close", "save"} => ClientOpen(m.uri)
   /\ m.kind = "cfg" => NCfg < MaxCfg
@@ -468,10 +476,10 @@ C30 == Quiescent =>
             /\ (vfs[u] = Absent /\ published[u] # Never) => published[u] = Empty
 
 \* ---- emission of replayable behaviours: one per distinct quiescent state ---------------------------
-Emit == (Quiescent /\ Len(script) > 0) =>
+Emit == (Quiescent /\ Len(script) > Cardinality(InitOpen)) =>
            PrintT(<<"SCHED", ToJson([hist |-> hist,
                                      kinds |-> [i \in 1..Len(tasks) |-> tasks[i].kind],
-                                     c27 |-> C27, c29 |-> C29, c30 |-> C30, reindex |-> EnableReindex,
+                                     c27 |-> C27, c29 |-> C29, c30 |-> C30, reindex |-> EnableReindex, initOpen |-> InitOpen,
                                      late |-> late, hadReload |-> HadReload, disk |-> disk,
                                      script |-> script])>>)
 =============================================================================
